@@ -492,10 +492,8 @@ func (p *Proxy) findBackendByDialog(msg *Message) (Backend, ServerTransport, err
 		return nil, nil, err
 	}
 
-	// no dialog for INVITE and SUBSCRIBE message because they initialize the dialog
-	if method == "INVITE" || method == "SUBSCRIBE" {
-		return nil, nil, fmt.Errorf("no dialog for request %s", method)
-	}
+	// an INVITE or SUBSCRIBE which initializes a dialog has no To tag: GetDialog fails
+	// for it. With both tags it is a re-INVITE or a refresh SUBSCRIBE of an existing dialog
 	dialog, err := msg.GetDialog()
 
 	if err != nil {
